@@ -1,5 +1,6 @@
 import HappyModel.C08.PipeSpec
 import HappyProofs.C08.PolicyCap
+import HappyProofs.C08.PolRel
 /-!
 Invariant of the repaired Queue + QueueDriver + Server protocol, preserved by every delivery
 (any schedule in which a `QueueDispatchedEvent` is handled after the payload it follows).
@@ -7,38 +8,40 @@ Invariant of the repaired Queue + QueueDriver + Server protocol, preserved by ev
 namespace HappyModel.C08.Pipe
 open HappyModel.C08
 
-/-- the three policies `Server` is built with in the correspondence runs; no balking wrapper -/
-def Plain (p : Cfg) : Prop := (p.kind = .fifo ∨ p.kind = .lifo ∨ p.kind = .prio) ∧ p.balk = none
+/-- the queue policies the pipeline theorems cover: FIFO, LIFO, stable priority, deadline, adaptive
+    LIFO, fair and weighted fair share, each with or without the balking wrapper.  (The
+    correspondence runs build `Server` with FIFO, LIFO or priority.)  RED and CoDel are left out on
+    purpose: the pipeline model passes the policy no early-drop decision and no CoDel drop count,
+    so inside a pipeline run they would only repeat FIFO.  The pipeline model also polls at clock 0
+    and never draws the balking coin: a deadline queue never expires an item inside a pipeline run
+    and a balking wrapper refuses only what its inner policy refuses. -/
+def Plain (p : Cfg) : Prop :=
+  p.kind = .fifo ∨ p.kind = .lifo ∨ p.kind = .prio ∨ p.kind = .deadline ∨ p.kind = .adaptive ∨
+  p.kind = .fair ∨ p.kind = .wfq
 
-theorem plain_notFlow {p : Cfg} (h : Plain p) : p.kind.isFlow = false := by
-  rcases h.1 with h | h | h <;> simp [Kind.isFlow, h]
-
-theorem plain_push_len {p : Cfg} (hp : Plain p) (s : St) (it : Item) (a b : Bool) :
+/-- a push changes `len` by one exactly when it accepts (any policy, any balking draw): a refused
+    push — by capacity, by flow limits or by balking — leaves the queue as it was -/
+theorem rel_push_len {p : Cfg} {s : St} {ss : SSt} (hr : PolRel p s ss) (it : Item) (a b : Bool) :
     len p (push p s it a b).1 = len p s + (if (push p s it a b).2 then 1 else 0) := by
-  have hf := plain_notFlow hp
-  rw [len_q hf, len_q hf]
-  unfold push
-  rw [hp.2]
-  simp only
-  unfold pushInner
-  rcases hp.1 with h | h | h <;> rw [h] <;> simp only <;> unfold pushList <;> split <;> simp
+  obtain ⟨h2, hr'⟩ := polrel_push hr it a b
+  rw [polrel_len hr', polrel_len hr, sPush_held, h2]
+  split <;> simp
 
-theorem plain_pop_len {p : Cfg} (hp : Plain p) (s : St) (now k : Nat) :
-    (∀ x, (pop p s now k).2 = some x → len p (pop p s now k).1 + 1 = len p s) ∧
-    ((pop p s now k).2 = none → len p (pop p s now k).1 = 0 ∧ len p s = 0) := by
-  have hf := plain_notFlow hp
-  rw [len_q hf, len_q hf]
-  unfold pop
-  rcases hp.1 with h | h | h <;> rw [h] <;> simp only
-  · unfold popHead; split <;> simp_all
-  · unfold popLast
-    split
-    · rename_i hq; simp at hq; simp [hq]
-    · rename_i e hq; have := getLast?_some_length hq; simp; omega
-  · unfold popPrio
-    split
-    · rename_i hq; have := extractMin_none _ hq; simp [this]
-    · rename_i m rest hq; have := extractMin_length _ _ _ hq; simp; omega
+/-- a pop (as the pipeline issues it) that returns an item shortens the queue by one; a pop that
+    returns nothing found it empty -/
+theorem rel_pop_len {p : Cfg} {s : St} {ss : SSt} (hr : PolRel p s ss) :
+    (∀ x, (pop p s 0 0).2 = some x → len p (pop p s 0 0).1 + 1 = len p s) ∧
+    ((pop p s 0 0).2 = none → len p (pop p s 0 0).1 = 0 ∧ len p s = 0) := by
+  obtain ⟨h2, hr'⟩ := polrel_pop hr 0 0
+  have hle := pop_len_le p s 0 0
+  rw [polrel_len hr', polrel_len hr] at hle ⊢
+  rw [h2]
+  refine ⟨fun x hx => ?_, fun hn => ?_⟩
+  · have := (sPop_held_some p ss x hx).length_eq
+    simp only [List.length_cons] at this; omega
+  · have := sPop_none_held hr hn
+    rw [this] at hle ⊢
+    exact ⟨Nat.le_zero.mp hle, rfl⟩
 
 /-- everything except the no-strand clause -/
 structure PInv0 (c : PCfg) (s : PSt) : Prop where
